@@ -151,11 +151,9 @@ class _CachedStorage(BaseStorage, BaseHeartbeat):
                 self._studies[study_id] = _StudyInfo()
             study = self._studies[study_id]
             self._add_trials_to_cache(study_id, [frozen_trial])
-            # Since finished trials will not be modified by any worker, we do not
-            # need storage access for them.
-            if frozen_trial.state.is_finished():
-                study.last_finished_trial_id = max(study.last_finished_trial_id, trial_id)
-            else:
+            # NOTE: `last_finished_trial_id` must not be advanced here. Trials created by other
+            # workers with smaller IDs may not have been fetched from the backend yet.
+            if not frozen_trial.state.is_finished():
                 study.unfinished_trial_ids.add(trial_id)
         return trial_id
 
